@@ -80,7 +80,11 @@ def cg_source(cg):
     for cp in cg["cps"]:
         if cp.get("target_style") == "callable":
             # sampling through a callable needs the coverpoint's type spelled out
-            args = ["lambda: self.%s" % cp["target"], "cp_t=%s" % type_src([p for p in cg["params"] if p["name"] == cp["target"]][0]["type"])]
+            tsrc = "lambda: self.%s" % cp["target"]
+            if cp.get("boom"):
+                # a user callable that raises when the module-level switch BOOM[0] is set
+                tsrc = "lambda: self.%s if not BOOM[0] else (_ for _ in ()).throw(RuntimeError('boom'))" % cp["target"]
+            args = [tsrc, "cp_t=%s" % type_src([p for p in cg["params"] if p["name"] == cp["target"]][0]["type"])]
         else:
             args = ["self.%s" % cp["target"]]
         iff = cp.get("iff")
@@ -130,7 +134,7 @@ def build(cgs, enums=None):
     import enum as _enum
     vsc = import_vsc()
     src = enums_source(enums) + "\n".join(cg_source(c) for c in cgs)
-    ns = {"vsc": vsc, "enum": _enum}
+    ns = {"vsc": vsc, "enum": _enum, "BOOM": [False]}
     exec(compile(src, "<pvs-cov>", "exec"), ns)
     ns["__source__"] = src
     return ns
